@@ -16,6 +16,7 @@ The engine is `appendKids_spec` / `appendOne_spec` (EmdProofs/AppendSpec.lean, m
 -/
 import EmdProofs.AppendSpec
 import EmdProofs.Zipper
+import EmdProofs.ParsePath
 import EmdProps.C08
 
 set_option linter.unusedSimpArgs false
@@ -868,6 +869,37 @@ theorem C09_target_new_below (over : Bool) (f : Obj) (F Rt P D : Tree) (body' : 
   have hne : (q ++ [m]).isEmpty = false := by cases q <;> rfl
   simp only [appendInto, appendCore, hname, hroot, hD, hf, hrm, hval, hne, bind, Except.bind, pure, Except.pure,
     Bool.not_true, Bool.false_and, Bool.false_eq_true, if_false, hzip]
+
+/-- C09, emdpath naming the ROOT of a tree that is in the file, for a runtime node of that tree which the file lacks,
+    `tree=False` (this is how `save(path, [node, ...])` writes a rooted list item): the node alone becomes a new child of
+    the root -/
+theorem C09_emdpath_root_new_single (over : Bool) (f : Obj) (F Rt D : Tree) (body' : List (String × Obj)) (m : String)
+    (hF : F.rootedWF CT DT = true) (hR : Rt.rootedWF CT DT = true) (hname : Rt.name = F.name)
+    (hf : alookup F.name f.kids = some (encode F)) (hroot : (rootGroups f).contains F.name = true)
+    (hmdname : "metadatabundle" ∉ names F.kids)
+    (hmd : mdBody over F.info.body (mdEntries Rt.info) = .ok body')
+    (hD : Rt.at [m] = some D) (hnew : m ∉ names F.kids) (hbody : m ∉ akeys body') :
+    appendInto DT f Rt [m] over .no (some F.name)
+      = .ok (f.setKids (areplace F.name (encode ((withBody F body').addKid (.mk D.info []))) f.kids)) := by
+  simp only [Tree.rootedWF, Bool.and_eq_true, beq_iff_eq] at hF hR
+  obtain ⟨hF1w, hrm⟩ := rootMd_encode over F Rt.info body' hF.1.1 hmdname hmd
+  obtain ⟨hDw, _⟩ := wf_at [m] Rt D hR.1.1 hD
+  have hDn : D.name = m := by simpa using at_name [] Rt D m hD
+  have hparse := parse_rootname F.name (infoWF_validName (Tree.wf_info hF.1.1))
+  have hv0 : validateTreepath (encode F) [] = some ([], true) := by simp [validateTreepath, validateTreepath.go]
+  have hP : (withBody F body').at [] = some (withBody F body') := rfl
+  have hnew' : m ∉ names (withBody F body').kids := by cases F; exact hnew
+  have hbody' : m ∉ akeys (withBody F body').info.body := by cases F; exact hbody
+  have hval := validate_beyond (ct := CT) (dt := DT) [] (withBody F body') (withBody F body') m hF1w hP
+    (alookup_encode_none _ m hbody' hnew')
+  have hv : validName D.info.name = true := infoWF_validName (Tree.wf_info hDw)
+  have hwrite := writeSingle_into (withBody F body') D.info hv
+    (by rw [show D.info.name = D.name from rfl, hDn]; exact hbody')
+    (by rw [show D.info.name = D.name from rfl, hDn]; exact hnew')
+  simp only [List.nil_append] at hval
+  simp only [appendInto, appendCore, hname, hroot, hD, hf, hrm, hparse, hv0, hval, List.isEmpty_cons, bind, Except.bind, pure,
+    Except.pure, Bool.not_true, Bool.false_and, Bool.false_eq_true, if_false, Option.isNone_some, Bool.and_false,
+    beq_self_eq_true, if_true, atPath, updateAt, hwrite]
 
 /-- what "exactly there, and nothing else" means for all three targeted theorems: after replacing the subtree at `p`,
     the new subtree is what is read at `p` (and below), and the content of every node whose path does not pass through
